@@ -161,6 +161,41 @@ func genMsg(rng *rand.Rand) (string, func() netty.Message) {
 	}
 }
 
+// deferExec holds the sender until the harness releases it (a stalled peer / slow executor).
+type deferExec struct{ pending []netty.Action }
+
+func (d *deferExec) Exec(a netty.Action) { d.pending = append(d.pending, a) }
+func (d *deferExec) runAll() {
+	for len(d.pending) > 0 {
+		a := d.pending[0]
+		d.pending = d.pending[1:]
+		a()
+	}
+}
+
+// scribble overwrites the storage of a message the caller still owns after Write returned.
+func scribble(m netty.Message) {
+	switch v := m.(type) {
+	case []byte:
+		for i := range v {
+			v[i] = 0xEE
+		}
+	case [][]byte:
+		for _, b := range v {
+			for i := range b {
+				b[i] = 0xEE
+			}
+		}
+	case *bytes.Buffer:
+		b := v.Bytes()
+		b = b[:cap(b)]
+		for i := range b {
+			b[i] = 0xEE
+		}
+		v.Reset()
+	}
+}
+
 func runC14(seed int64, count int) {
 	rng := rand.New(rand.NewSource(seed))
 	for cs := 0; cs < count; cs++ {
@@ -170,17 +205,22 @@ func runC14(seed int64, count int) {
 			pl := netty.NewPipeline()
 			tr := mock.NewTransport()
 			var ch netty.Channel
+			dexec := &deferExec{}
 			if mode == "sync" {
 				ch = netty.NewChannel()(int64(cs), context.Background(), pl, tr, goExec{})
 			} else {
-				ch = netty.NewAsyncWriteChannel(1+rng.Intn(8), true)(int64(cs), context.Background(), pl, tr, goExec{})
+				// queue large enough for every chunk of the message: the sender stays parked meanwhile
+				ch = netty.NewAsyncWriteChannel(256, false)(int64(cs), context.Background(), pl, tr, dexec)
 			}
 			netty.NvAttach(pl, ch)
-			status := guard(func() { pl.FireChannelWrite(mk()) })
+			msg := mk()
+			status := guard(func() { pl.FireChannelWrite(msg) })
 			if status == "panic" {
 				status = "raise"
 			}
 			if mode == "async" {
+				scribble(msg) // the caller reuses its buffer before the (stalled) sender has run
+				dexec.runAll()
 				deadline := time.Now().Add(2 * time.Second)
 				for (netty.NvQueueLen(ch) > 0 || netty.NvSenderRunning(ch)) && time.Now().Before(deadline) {
 					time.Sleep(50 * time.Microsecond)
